@@ -148,6 +148,14 @@ INFO["C12"] = {
                  "separable from the parser without rewriting the repository",
 }
 
+INFO["C18"] = {
+    "not_applicable": True,
+    "na_reason": "first sentence: the line handling is the body of Cpu::run's polling loop (Vec<String>, str::split, from_str_radix, string matches); with fetch/exec/clock scripted by "
+                 "stubs CBMC did not get through it - symbolic line texts: 35 min in symbolic execution, no result; concrete texts with a symbolic partition of 3 lines into 3 polls: out of "
+                 "memory at 20 GB; 2 lines / 2 polls: 30 min timeout (harness c13::socket_lines kept for the record). Second sentence (outgoing framing, receive-side splitting): code inside "
+                 "thread closures over a TcpStream, which Kani/CBMC cannot execute. No other technique is substituted.",
+}
+
 NOTES = (
     "All checks are solver-based (Kani/CBMC on the real source, regenerated from /repo on every run). "
     "Exit 2 means the machinery was inconclusive (timeout, memory, vacuity, non-reproducing counterexample) and is never a pass. "
